@@ -53,6 +53,9 @@ func snapshotInto(from *replica, to *replica) *pbt.Failure {
 }
 
 func check(c Case, o *pbt.Obs) *pbt.Failure {
+	if psm.HasManyKeys(c.Log) {
+		o.Label("update-whose-merged-metadata-exceeds-the-entry-limit")
+	}
 	l := c.Log
 	n := len(l.Entries)
 	c1 := c.C1 % (n + 1)
@@ -150,7 +153,7 @@ func TestReplicasAgree(t *testing.T) {
 		Weights: [6]int{6, 4, 4, 3, 2, 2}})
 	pbt.Run(t, pbt.Prop[Case]{
 		ID: "C04", Name: "TestReplicasAgree",
-		Rule: "rapid-generated log of serialized PartitionChange entries (all six kinds, small id pool, batches with duplicates) and cut points c1<=c2; replicas: R1 applies all; R2 applies [0,c1), snapshots (real partition.snapshot), the bytes are restored (real processSnapshot) into a fresh or a used state machine, then applies the rest; R3 restores a snapshot taken from the restored R2 at c2; R4 replays from scratch; oracle: every per-entry outcome on every replica equals the sequential model's, apply/restore never error or panic, final contents (ids, vector bits, metadata, Len) of all replicas equal the model; non-trivial = a remove/update precedes the first cut and entries follow it; distinct = distinct case JSON",
+		Rule: "rapid-generated log of serialized PartitionChange entries (all six kinds, small id pool, batches with duplicates; in about 1 of 1000 logs an item with 40000 metadata keys that is later updated with 30000 other keys - each map is valid, their union exceeds the format's 65535 entries) and cut points c1<=c2; replicas: R1 applies all; R2 applies [0,c1), snapshots (real partition.snapshot), the bytes are restored (real processSnapshot) into a fresh or a used state machine, then applies the rest; R3 restores a snapshot taken from the restored R2 at c2; R4 replays from scratch; oracle: every per-entry outcome on every replica equals the sequential model's, apply/restore never error or panic, final contents (ids, vector bits, metadata, Len) of all replicas equal the model; non-trivial = a remove/update precedes the first cut and entries follow it; distinct = distinct case JSON",
 		Gen: func(t *rapid.T) Case {
 			return Case{Log: g.Draw(t, "log"), C1: rapid.IntRange(0, 100).Draw(t, "c1"), C2: rapid.IntRange(0, 100).Draw(t, "c2"), Used: rapid.IntRange(0, 100).Draw(t, "used") * rapid.IntRange(0, 1).Draw(t, "useUsed")}
 		},
